@@ -39,14 +39,9 @@ Definition py_int (z : Z) : pyobj := ONum z 1.
 Definition py_num (q : Q) : pyobj := ONum (Qnum q) (Qden q).
 Definition py_len_items {A : Type} (l : list A) : Z := Z.of_nat (length l).
 
-(* hash(o): lists are unhashable, a tuple is hashable when its items are; the members of a frozenset are hashable
-   by construction *)
-Fixpoint py_hashable (o : pyobj) : bool :=
-  match o with
-  | OList _ => false
-  | OTuple l => forallb py_hashable l
-  | _ => true
-  end.
+(* hash(o): Model.Validate.hashable - lists are unhashable, a tuple is hashable when its items are; the members of a
+   frozenset are hashable by construction *)
+Definition py_hashable : pyobj -> bool := hashable.
 
 (* len(o), iter(o), o[i], a, b = o *)
 Definition py_len (o : pyobj) : Z + pyvexn :=
